@@ -187,7 +187,7 @@ def run(P, R, tier):
     if nsort == 0:
         R.bad('C12.c', perform, None, 'dataset pieces are not sorted at all: their order is whatever the filesystem listing returns', construct='natural sort of pieces')
     # the sorted list is what is read, in that order
-    ok = any(isinstance(n, ast.ListComp) and 'delayed' in norm(n.elt) and 'pieces' in norm(n.generators[0].iter) for n in walk_own(perform.node))
+    ok = any(isinstance(n, ast.ListComp) and 'delayed' in norm(n.elt) and isinstance(n.generators[0].iter, ast.Name) for n in walk_own(perform.node))
     R.check(ok, 'C12.c', perform, None, 'one delayed read per piece in sorted order', 'delayed partitions are not built from the sorted pieces in order',
             construct='[delayed(read_parquet)(piece.path, ...) for piece in pieces]', nontrivial=False)
 
@@ -259,11 +259,11 @@ def run(P, R, tier):
         R.bad('C12.e', perform, blk, 'no loop filters the bounds tables of all geometry columns with the partition mask', construct='for col in partition_bounds: filter')
     if frame_filtered:
         # delayed partitions and divisions come from the filtered frame
-        okd = any(isinstance(a, ast.Assign) and isinstance(a.targets[0], ast.Name) and a.targets[0].id == 'delayed_partitions'
-                  and frame_filtered in astq.names_in(a.value) for a in ast.walk(blk))
+        okd = any(isinstance(a, ast.Assign) and isinstance(a.targets[0], ast.Name) and frame_filtered in astq.names_in(a.value)
+                  and any(isinstance(x, ast.Attribute) and x.attr == 'delayed_partition' for x in ast.walk(a.value)) for a in ast.walk(blk))
         R.check(okd, 'C12.e', perform, None, 'delayed partitions are taken from the frame filtered by the same mask',
                 'delayed partitions are not taken from the filtered frame', construct='delayed_partitions = partitions_df.delayed_partition.tolist()')
-        divs = [a for a in ast.walk(blk) if isinstance(a, ast.Assign) and isinstance(a.targets[0], ast.Name) and a.targets[0].id.startswith('div_')]
+        divs = [a for a in ast.walk(blk) if isinstance(a, ast.Assign) and isinstance(a.targets[0], ast.Name) and any(isinstance(x, ast.Attribute) and x.attr.startswith('div_') for x in ast.walk(a.value))]
         for a in divs:
             R.check(frame_filtered in astq.names_in(a.value), 'C12.e', perform, a, 'divisions are taken from the frame filtered by the same mask',
                     'divisions are not filtered with the partitions')
